@@ -9,7 +9,28 @@ import scratch_check
 IDS = ["C%02d" % i for i in range(1, 18)]
 
 
+def refresh():
+    """recompute caught_by of every registered seed against the current tree and checks"""
+    for mf in sorted(glob.glob(os.path.join(VERIF, "seeded", "C*", "meta.json"))):
+        d = os.path.dirname(mf)
+        m = json.load(open(mf))
+        res = scratch_check.run(os.path.join(d, "patch.diff"), IDS)
+        if any(v[0] == "error" and "does not apply" in str(v[1]) for v in res.values()):
+            print(os.path.basename(d), "PATCH DOES NOT APPLY to the current tree", flush=True)
+            continue
+        caught = {k: v[1] for k, v in res.items() if v[0] == "caught"}
+        old = sorted(m.get("caught_by") or {})
+        m["caught_by"] = caught
+        m["target_property_check_catches_it"] = m.get("property") in caught
+        m["check_errors"] = {k: str(v[1])[:200] for k, v in res.items() if v[0] == "error"}
+        json.dump(m, open(mf, "w"), indent=1)
+        print(os.path.basename(d), "caught by", sorted(caught), "" if old == sorted(caught) else "(was %s)" % old,
+              "MISSED by its own property's check" if m.get("property") not in caught else "", flush=True)
+
+
 def main():
+    if sys.argv[1:] == ["--refresh"]:
+        return refresh()
     dirs = sys.argv[1:] or sorted(glob.glob("/tmp/seeds/out-C*/[0-9]"))
     for d in dirs:
         vf = os.path.join(d, "verified.json")
@@ -19,7 +40,7 @@ def main():
         ver = json.load(open(vf))
         meta = json.load(open(os.path.join(d, "meta.json")))
         pid = meta.get("property") or os.path.basename(os.path.dirname(d)).replace("out-", "")
-        rnd = "r2-" if "/seeds2/" in d else ""
+        rnd = "r2-" if "/seeds2/" in d else ("r3-" if "/seeds3/" in d else ("r4-" if "/seeds4/" in d else ""))
         name = "%s-%s%s" % (pid, rnd, os.path.basename(d))
         dst = os.path.join(VERIF, "seeded", name)
         if not ver.get("ok"):
